@@ -752,3 +752,269 @@ Proof.
   pose proof (progress_round fuel cn x c rest _ _ _ eq_refl Hc0 Hr0 H1 H2 H3 Hf W) as [P1 P2].
   cbn [body] in P1. split; [exact P1|exact P2].
 Qed.
+
+(* ------------------------------------------------------------------ *)
+(** * The full ledger: every stream of a connection, sharing its window *)
+
+Record mstream := mkms { ms_id : Z; ms_w : Z; ms_body : list Z; ms_credit : Z; ms_sent : Z }.
+
+Record mconn := mkmc {
+  m_cw : Z; m_init : Z; m_mf : Z; m_maxc : Z; m_streams : list mstream;
+  m_cc : Z; m_sc : Z;            (* connection: credit granted / bytes sent (ghost) *)
+  m_dead : bool }.
+
+Inductive mevent :=
+| MWUconn (inc : Z)
+| MWUstream (sid inc : Z)
+| MSettingsIW (v : Z)
+| MSettingsMaxConc (v : Z)
+| MOpen (sid : Z) (chunks : list Z)      (* start_stream *)
+| MClose (sid : Z)                       (* the stream ended / was reset *)
+| MWrite (fuel : nat).                   (* one write_streams pass over every stream *)
+
+Fixpoint mpass (fuel : nat) (cw mf : Z) (l : list mstream) : option (list mstream * Z * list (Z * Z)) :=
+  match l with
+  | [] => Some ([], cw, [])
+  | x :: r =>
+    let window := Z.min (ms_w x) cw in
+    match prepare fuel false window mf (ms_body x) [] with
+    | None => None
+    | Some (frames, lft, w') =>
+      let consumed := window - w' in
+      match mpass fuel (saturating_sub cw consumed) mf r with
+      | None => None
+      | Some (r', cw', out) =>
+        Some (mkms (ms_id x) (saturating_sub (ms_w x) consumed) lft (ms_credit x) (ms_sent x + sumz frames) :: r',
+              cw', map (fun f => (ms_id x, f)) frames ++ out)
+      end
+    end
+  end.
+
+Fixpoint mdelta (delta : Z) (l : list mstream) : option (list mstream) :=
+  match l with
+  | [] => Some []
+  | x :: r =>
+    match checked_add (ms_w x) delta, mdelta delta r with
+    | Some w, Some r' => Some (mkms (ms_id x) w (ms_body x) (ms_credit x + delta) (ms_sent x) :: r')
+    | _, _ => None
+    end
+  end.
+
+(** WINDOW_UPDATE on a stream: first stream with that id; overflow resets (removes) it *)
+Fixpoint mwu (sid inc : Z) (l : list mstream) : list mstream :=
+  match l with
+  | [] => []
+  | x :: r =>
+    if ms_id x =? sid then
+      match checked_add (ms_w x) inc with
+      | Some w => mkms (ms_id x) w (ms_body x) (ms_credit x + inc) (ms_sent x) :: r
+      | None => r
+      end
+    else x :: mwu sid inc r
+  end.
+
+Definition mkill (c : mconn) : mconn :=
+  mkmc (m_cw c) (m_init c) (m_mf c) (m_maxc c) (m_streams c) (m_cc c) (m_sc c) true.
+
+Definition mstep (c : mconn) (e : mevent) : mconn * list (Z * Z) :=
+  if m_dead c then (c, []) else
+  match e with
+  | MWUconn inc =>
+    if (inc <=? 0) || (I32_MAX <? inc) then (mkill c, [])
+    else match checked_add (m_cw c) inc with
+         | Some w => (mkmc w (m_init c) (m_mf c) (m_maxc c) (m_streams c) (m_cc c + inc) (m_sc c) false, [])
+         | None => (mkill c, [])
+         end
+  | MWUstream sid inc =>
+    if (inc <=? 0) || (I32_MAX <? inc) then
+      (mkmc (m_cw c) (m_init c) (m_mf c) (m_maxc c) (filter (fun x => negb (ms_id x =? sid)) (m_streams c)) (m_cc c) (m_sc c) false, [])
+    else (mkmc (m_cw c) (m_init c) (m_mf c) (m_maxc c) (mwu sid inc (m_streams c)) (m_cc c) (m_sc c) false, [])
+  | MSettingsIW v =>
+    if (v <? 0) || (FLOW_CONTROL_MAX_WINDOW <? v) then (mkill c, [])
+    else match mdelta (v - m_init c) (m_streams c) with
+         | Some l => (mkmc (m_cw c) v (m_mf c) (m_maxc c) l (m_cc c) (m_sc c) false, [])
+         | None => (mkill c, [])
+         end
+  | MSettingsMaxConc v => (mkmc (m_cw c) (m_init c) (m_mf c) v (m_streams c) (m_cc c) (m_sc c) false, [])
+  | MOpen sid chunks =>
+    if (m_maxc c <=? Z.of_nat (length (m_streams c))) || negb (forallb (fun k => 0 <=? k) chunks) then (c, [])
+    else (mkmc (m_cw c) (m_init c) (m_mf c) (m_maxc c)
+               (m_streams c ++ [mkms sid (m_init c) chunks (m_init c) 0]) (m_cc c) (m_sc c) false, [])
+  | MClose sid =>
+    (mkmc (m_cw c) (m_init c) (m_mf c) (m_maxc c) (filter (fun x => negb (ms_id x =? sid)) (m_streams c)) (m_cc c) (m_sc c) false, [])
+  | MWrite fuel =>
+    match mpass fuel (m_cw c) (m_mf c) (m_streams c) with
+    | None => (c, [])
+    | Some (l, cw', out) =>
+      (mkmc cw' (m_init c) (m_mf c) (m_maxc c) l (m_cc c) (m_sc c + sumz (map snd out)) false, out)
+    end
+  end.
+
+Definition ms_ok (x : mstream) : Prop :=
+  ms_w x = ms_credit x - ms_sent x /\ I32_MIN <= ms_w x <= I32_MAX /\ Forall (fun k => 0 <= k) (ms_body x).
+
+Definition mc_ok (c : mconn) : Prop :=
+  Forall ms_ok (m_streams c) /\ m_cw c = m_cc c - m_sc c /\ 0 <= m_cw c <= I32_MAX /\
+  0 <= m_mf c /\ 0 <= m_init c <= I32_MAX.
+
+Lemma sumz_map_app (a b : list (Z * Z)) : sumz (map snd (a ++ b)) = sumz (map snd a) + sumz (map snd b).
+Proof. rewrite map_app. apply sumz_app. Qed.
+
+Lemma sumz_map_pair (i : Z) (l : list Z) : sumz (map snd (map (fun f => (i, f)) l)) = sumz l.
+Proof. rewrite map_map. cbn [snd]. rewrite map_id. reflexivity. Qed.
+
+(** one write pass over all the streams *)
+Lemma mpass_sound fuel mf : forall l cw l' cw' out,
+  0 <= mf -> Forall ms_ok l -> 0 <= cw <= I32_MAX ->
+  mpass fuel cw mf l = Some (l', cw', out) ->
+  Forall ms_ok l' /\ cw' = cw - sumz (map snd out) /\ 0 <= cw' <= I32_MAX /\
+  0 <= sumz (map snd out) /\
+  Forall (fun p => 0 <= snd p /\ snd p <= mf) out /\
+  map ms_id l' = map ms_id l /\ map ms_credit l' = map ms_credit l /\
+  Forall2 (fun x x' => ms_sent x <= ms_sent x' /\ ms_sent x' <= Z.max (ms_sent x) (ms_credit x)) l l'.
+Proof.
+  intros l. induction l as [|x r IH]; intros cw l' cw' out Hm Hl Hc H; cbn [mpass] in H.
+  - inversion H; subst. cbn. repeat split; try constructor; lia.
+  - inversion Hl as [|? ? Hx Hr]; subst. destruct Hx as (Xw & Xb & Xbody).
+    destruct (prepare fuel false (Z.min (ms_w x) cw) mf (ms_body x) []) as [[[frames lft] w']|] eqn:P; [|discriminate].
+    destruct (mpass fuel (saturating_sub cw (Z.min (ms_w x) cw - w')) mf r) as [[[r' cw2] out2]|] eqn:R; [|discriminate].
+    inversion H; subst; clear H.
+    apply prepare_sound in P; [|exact Hm|unfold I32_MAX in *; lia|exact Xbody].
+    destruct P as (em & Hf & Ha & Hsum & Hpos & Hneg & Hmax & Htot & Hlft). cbn [rev app] in Hf. subst em.
+    assert (Hsub : saturating_sub cw (Z.min (ms_w x) cw - w') = cw - sumz frames)
+      by (unfold saturating_sub, I32_MIN, I32_MAX in *; lia).
+    rewrite Hsub in R.
+    apply IH in R; [|exact Hm|exact Hr|unfold I32_MAX in *; lia].
+    destruct R as (R1 & R2 & R3 & R4 & R5 & R6 & R7 & R8).
+    rewrite sumz_map_app, sumz_map_pair.
+    split.
+    { constructor; [|exact R1]. unfold ms_ok. cbn [ms_w ms_credit ms_sent ms_body].
+      unfold saturating_sub, I32_MIN, I32_MAX in *. repeat split; try lia. exact Hlft. }
+    split; [lia|]. split; [lia|]. split; [lia|].
+    split.
+    { apply Forall_app. split; [|exact R5].
+      apply Forall_forall. intros p Hp. apply in_map_iff in Hp. destruct Hp as (f & <- & Hin). cbn [snd].
+      rewrite Forall_forall in Ha. apply Ha; exact Hin. }
+    cbn [map ms_id ms_credit]. rewrite R6, R7. split; [reflexivity|]. split; [reflexivity|].
+    constructor; [|exact R8]. cbn [ms_sent]. lia.
+Qed.
+
+Lemma mdelta_ok delta l l' :
+  Forall ms_ok l -> mdelta delta l = Some l' ->
+  Forall ms_ok l' /\ map ms_id l' = map ms_id l /\ map ms_sent l' = map ms_sent l /\
+  map ms_credit l' = map (fun x => ms_credit x + delta) l.
+Proof.
+  revert l'. induction l as [|x r IH]; intros l' Hl H; cbn [mdelta] in H.
+  - inversion H; subst. repeat split; constructor.
+  - inversion Hl as [|? ? Hx Hr]; subst.
+    destruct (checked_add (ms_w x) delta) as [w|] eqn:A; [|discriminate].
+    destruct (mdelta delta r) as [r'|] eqn:R; [|discriminate]. inversion H; subst.
+    apply checked_add_some in A. destruct (IH r' Hr eq_refl) as (I1 & I2 & I3 & I4).
+    destruct Hx as (Xw & Xb & Xbody).
+    cbn [map ms_id ms_sent ms_credit]. rewrite I2, I3, I4. repeat split; try reflexivity.
+    constructor; [|exact I1]. unfold ms_ok. cbn. repeat split; try lia. exact Xbody.
+Qed.
+
+Lemma mwu_ok sid inc l : 0 < inc -> Forall ms_ok l -> Forall ms_ok (mwu sid inc l).
+Proof.
+  intros Hi. induction l as [|x r IH]; intros Hl; cbn [mwu]; [constructor|].
+  inversion Hl as [|? ? Hx Hr]; subst. destruct (ms_id x =? sid).
+  - destruct (checked_add (ms_w x) inc) as [w|] eqn:A; [|exact Hr].
+    apply checked_add_some in A. destruct Hx as (Xw & Xb & Xbody).
+    constructor; [|exact Hr]. unfold ms_ok. cbn. repeat split; try lia. exact Xbody.
+  - constructor; [exact Hx|apply IH; exact Hr].
+Qed.
+
+Lemma filter_ok (f : mstream -> bool) l : Forall ms_ok l -> Forall ms_ok (filter f l).
+Proof.
+  induction l as [|x r IH]; intros H; cbn [filter]; [constructor|].
+  inversion H; subst. destruct (f x); [constructor; [assumption|]|]; apply IH; assumption.
+Qed.
+
+Lemma forallb_nonneg l : forallb (fun k => 0 <=? k) l = true -> Forall (fun k => 0 <= k) l.
+Proof.
+  induction l as [|a l IH]; cbn [forallb]; intros H; [constructor|].
+  apply andb_prop in H. destruct H as [H1 H2]. constructor; [apply Z.leb_le; exact H1|apply IH; exact H2].
+Qed.
+
+(** every step keeps the ledger sound; a write pass never sends more than the
+    connection window, nor more on a stream than its window, nor a frame above
+    the peer's max frame size; a stream is opened only below MAX_CONCURRENT_STREAMS *)
+Ltac mfin := repeat split; try assumption; try (apply Forall_nil); try lia; try discriminate; try (intros; lia).
+
+Lemma mstep_ok c e c' out :
+  mc_ok c -> mstep c e = (c', out) ->
+  mc_ok c' /\
+  m_sc c' = m_sc c + sumz (map snd out) /\ 0 <= sumz (map snd out) <= m_cw c /\
+  Forall (fun p => 0 <= snd p /\ snd p <= m_mf c) out /\
+  (forall sid chunks, e = MOpen sid chunks -> length (m_streams c') = S (length (m_streams c)) ->
+     Z.of_nat (length (m_streams c)) < m_maxc c).
+Proof.
+  intros (Hs & Hc & Bc & Hm & Hi) H. unfold mstep in H.
+  assert (Nil : sumz (map snd (@nil (Z * Z))) = 0) by reflexivity.
+  destruct (m_dead c).
+  { inversion H; subst. rewrite Nil. unfold mc_ok. mfin. }
+  destruct e as [inc|sid inc|v|v|sid chunks|sid|fuel].
+  - destruct ((inc <=? 0) || (I32_MAX <? inc)) eqn:G.
+    { inversion H; subst. rewrite Nil. unfold mc_ok, mkill; cbn. mfin. }
+    apply orb_false_iff in G. destruct G as [G1 G2]. apply Z.leb_gt in G1. apply Z.ltb_ge in G2.
+    destruct (checked_add (m_cw c) inc) as [w|] eqn:A; inversion H; subst; rewrite Nil; unfold mc_ok, mkill; cbn.
+    + apply checked_add_some in A. mfin.
+    + mfin.
+  - destruct ((inc <=? 0) || (I32_MAX <? inc)) eqn:G; inversion H; subst; rewrite Nil; unfold mc_ok; cbn.
+    + pose proof (filter_ok (fun x => negb (ms_id x =? sid)) _ Hs) as F. mfin.
+    + apply orb_false_iff in G. destruct G as [G1 G2]. apply Z.leb_gt in G1.
+      pose proof (mwu_ok sid inc _ G1 Hs) as F. mfin.
+  - destruct ((v <? 0) || (FLOW_CONTROL_MAX_WINDOW <? v)) eqn:G.
+    { inversion H; subst. rewrite Nil. unfold mc_ok, mkill; cbn. mfin. }
+    apply orb_false_iff in G. destruct G as [G1 G2]. apply Z.ltb_ge in G1, G2.
+    destruct (mdelta (v - m_init c) (m_streams c)) as [l|] eqn:D; inversion H; subst; rewrite Nil; unfold mc_ok, mkill; cbn.
+    + apply mdelta_ok in D; [|exact Hs]. destruct D as (D1 & _).
+      unfold FLOW_CONTROL_MAX_WINDOW, I32_MAX in *. mfin.
+    + mfin.
+  - inversion H; subst. rewrite Nil. unfold mc_ok; cbn. mfin.
+  - destruct ((m_maxc c <=? Z.of_nat (length (m_streams c))) || negb (forallb (fun k => 0 <=? k) chunks)) eqn:G.
+    + inversion H; subst. rewrite Nil. unfold mc_ok. mfin.
+    + apply orb_false_iff in G. destruct G as [G1 G2]. apply Z.leb_gt in G1. apply negb_false_iff in G2.
+      inversion H; subst. rewrite Nil. unfold mc_ok; cbn.
+      assert (F : Forall ms_ok (m_streams c ++ [mkms sid (m_init c) chunks (m_init c) 0])).
+      { apply Forall_app. split; [exact Hs|]. constructor; [|constructor].
+        unfold ms_ok. cbn. unfold I32_MIN in *. repeat split; try lia. apply forallb_nonneg; exact G2. }
+      mfin.
+  - inversion H; subst. rewrite Nil. unfold mc_ok; cbn.
+    pose proof (filter_ok (fun x => negb (ms_id x =? sid)) _ Hs) as F. mfin.
+  - destruct (mpass fuel (m_cw c) (m_mf c) (m_streams c)) as [[[l cw'] o]|] eqn:P.
+    + inversion H; subst. apply mpass_sound in P; [|exact Hm|exact Hs|exact Bc].
+      destruct P as (P1 & P2 & P3 & P4 & P5 & _). unfold mc_ok; cbn. mfin.
+    + inversion H; subst. rewrite Nil. unfold mc_ok. mfin.
+Qed.
+
+Fixpoint mrun (c : mconn) (evs : list mevent) : mconn * list (list (Z * Z)) :=
+  match evs with
+  | [] => (c, [])
+  | e :: r => let '(c1, o) := mstep c e in let '(c2, os) := mrun c1 r in (c2, o :: os)
+  end.
+
+Lemma mrun_ok evs : forall c c' outs,
+  mc_ok c -> mrun c evs = (c', outs) ->
+  mc_ok c' /\ m_sc c' = m_sc c + sumz (map (fun o => sumz (map snd o)) outs).
+Proof.
+  induction evs as [|e r IH]; intros c c' outs Hc H; cbn [mrun] in H.
+  - inversion H; subst. split; [exact Hc|cbn; lia].
+  - destruct (mstep c e) as [c1 o] eqn:S. destruct (mrun c1 r) as [c2 os] eqn:R. inversion H; subst.
+    destruct (mstep_ok _ _ _ _ Hc S) as (H1 & H2 & _).
+    destruct (IH _ _ _ H1 R) as (H3 & H4). split; [exact H3|].
+    cbn [map]. assert (E : forall a l, sumz (a :: l) = a + sumz l) by reflexivity. rewrite E. lia.
+Qed.
+
+(** consequences of [mc_ok]: on the whole connection, and on every open stream, bytes sent
+    never exceed the credit granted (a stream whose window a SETTINGS shrink made negative
+    is the RFC's own exception: it has nothing more to send until the window is positive) *)
+Lemma mc_ok_ledger c :
+  mc_ok c ->
+  m_sc c <= m_cc c /\
+  Forall (fun x => 0 <= ms_w x -> ms_sent x <= ms_credit x) (m_streams c).
+Proof.
+  intros (Hs & Hc & Bc & _). split; [lia|].
+  eapply Forall_impl; [|exact Hs]. intros x (Xw & _). lia.
+Qed.
